@@ -614,6 +614,16 @@ def check_gaussian_dispatch(run, A):
         ranks = set()
         for c2, alt in gamma_paths(cov, conds):
             alt = strip_views(alt)
+            # the covariance handed to the model IS the pooled scatter divided by the mass: anything added to / multiplied into it afterwards (a regulariser, a gain) gives a
+            # different estimator than the documented one - and one that is not the maximiser of the EM auxiliary function
+            if alt.op in ('binop', 'iop') and alt.args[0] in ('Add', 'Sub', 'Mult') and any(
+                    x.op in ('binop', 'iop') and x.args[0] == 'Div' and any(is_call_to(y, 'numpy.einsum') for y in walk_terms(x.args[1], into_mu=False))
+                    for x in walk_terms(alt, into_mu=False)):
+                n += 1
+                run.violation('R-EIN', f'GaussianTrainer._fit: the covariance handed to {cname} is the normalised scatter itself', fn.loc(alt.node),
+                              f'`{norm_stmt(alt.node)[:90]}` changes the scatter estimate after the division by the mass (regularisation / rescaling): not the weighted scatter the '
+                              f'property documents', construct=f'R-EIN::{q}::scatter-modified::{cname}')
+                continue
             if alt.op in ('binop', 'iop') and alt.args[0] == 'Div':
                 for c3, num in gamma_paths(alt.args[1], c2):
                     num = strip_views(num)
